@@ -103,8 +103,11 @@ func loadStreams(s *e2e.Server, rep *e2eReport) {
 				})
 			}
 			s.WriteStream(g, c.Name, els)
+			// flush after every write: a flush that finds several memory parts merges them, and a merge drops the
+			// per-block filters of skipping-indexed tags (finding F3) — waiting here keeps the layout (one unmerged
+			// part per stream and batch) and with it the set of rows the skipping bindings lose the same in every run
+			s.WaitFlushed("stream", g)
 		}
-		s.WaitFlushed("stream", g)
 	}
 	rep.Parts["stream_loaded"], _ = s.Parts(g)
 	if rep.Parts["stream_loaded"] < 3 {
